@@ -32,3 +32,33 @@ def coldfilt [Add α] [Mul α] [OfNat α 0] (ha hb : List α) (highpass : Bool) 
 
 end Spec
 end WV
+
+namespace WV
+namespace Spec
+variable {α : Type}
+
+/-- reference `colifilt(X, ha, hb)` on one column of even length `r`: output length `2r`, rows `4v…4v+3`
+from four poly-phase branches (raw, un-reversed filters; `m/2` even or odd decides the branch order and the
+sample phases; `highpass` exchanges the phases within each pair) -/
+def colifilt [Add α] [Mul α] [OfNat α 0] (ha hb : List α) (highpass : Bool) (x : List α) : List α :=
+  let m := ha.length
+  let m2 := m / 2
+  let br := fun (h : List α) (tapOff : Nat) (phase : Int) (v : Nat) =>
+    sumN m2 fun j => getN h (m - tapOff - 2*j) * xt x (2*((v:Int) + j) + phase - (m2:Int))
+  tab (2 * x.length) fun i =>
+    let v := i / 4
+    if m2 % 2 = 0 then
+      match i % 4 with
+      | 0 => br ha 1 (if highpass then 1 else 0) v
+      | 1 => br hb 1 (if highpass then 0 else 1) v
+      | 2 => br ha 2 (if highpass then 3 else 2) v
+      | _ => br hb 2 (if highpass then 2 else 3) v
+    else
+      match i % 4 with
+      | 0 => br ha 2 (if highpass then 2 else 1) v
+      | 1 => br hb 2 (if highpass then 1 else 2) v
+      | 2 => br ha 1 (if highpass then 2 else 1) v
+      | _ => br hb 1 (if highpass then 1 else 2) v
+
+end Spec
+end WV
